@@ -51,6 +51,9 @@ func genIndConfig(rng *rand.Rand, e *IndEntity, allowDefault bool) (cfg []int, s
 			if rng.Intn(30) == 0 {
 				cfg[i] = 30 + rng.Intn(40) // windows of a month or a quarter (code that splits or caps long windows)
 			}
+			if rng.Intn(150) == 0 {
+				cfg[i] = 250 + rng.Intn(70) // a trading year (the longest default in the library is 255)
+			}
 		}
 		return cfg, 1
 	case x < 88 || !allowDefault:
